@@ -107,3 +107,67 @@ Fixpoint eval_ast (t : term) : res datum :=
 
 Definition datum_str (d : datum) : str :=
   match d with DInt z => show_Z z | DFlt f => fmt_float f | DStr s => s end.
+
+(* ---------- the same reference evaluator with side effects (C12) ----------
+   Extra leaves: ("rec" k value) records the call k and yields value; ("unset" n) is an unset
+   variable and ("badcmd") an unknown command: evaluating them is an error; ("raw" text) is
+   malformed text (the tree has no value: [contains_raw]).  The result is the list of recorded
+   calls, in order, and the value or error.  An operand that C semantics does not require is
+   not evaluated: it contributes no call and no error. *)
+Definition tr_bind (m : list str * res datum) (k : datum -> list str * res datum) : list str * res datum :=
+  match m with
+  | (t, Ok v) => let '(t2, r) := k v in (t ++ t2, r)
+  | (t, other) => (t, other)
+  end.
+
+Fixpoint eval_tr (t : term) : list str * res datum :=
+  match t with
+  | TList [TStr tg; TInt z] =>
+      if str_eqb tg (lit "unset") then ([], err (lit "no such variable")) else ([], Ok (DInt z))
+  | TList [TStr tg] => ([], err (lit "failing command"))                    (* badcmd *)
+  | TList [TStr tg; TStr s] =>
+      if str_eqb tg (lit "raw") then ([], err (lit "malformed"))
+      else ([], eval_ast t)
+  | TList [TStr tg; TInt k; TStr v] =>                                         (* rec k value *)
+      ([lit "k" ++ show_Z k], expr_parse_string v)
+  | TList [TStr tg; TStr a; (TStr s) as b] => ([], eval_ast t)                 (* var name value *)
+  | TList [TStr tg; TStr op; a] =>
+      tr_bind (eval_tr a) (fun v =>
+        ([], if str_eqb tg (lit "un") then spec_unary op v
+             else match v with
+                  | DStr _ => err (lit "argument to math function didn't have numeric value")
+                  | _ => call_func op v
+                  end))
+  | TList [TStr tg; TStr op; a; b] =>
+      if str_eqb op (lit "&&") || str_eqb op (lit "||") then
+        tr_bind (eval_tr a) (fun va =>
+          match truth va with
+          | Ok ta =>
+              if str_eqb op (lit "&&") && negb ta then ([], Ok (DInt 0))
+              else if str_eqb op (lit "||") && ta then ([], Ok (DInt 1))
+              else tr_bind (eval_tr b) (fun vb =>
+                     ([], match truth vb with
+                          | Ok tb => Ok (DInt (if tb then 1 else 0))
+                          | Err e => Err e | Panic p => Panic p | Fuel => Fuel
+                          end))
+          | Err e => ([], Err e) | Panic p => ([], Panic p) | Fuel => ([], Fuel)
+          end)
+      else
+        tr_bind (eval_tr a) (fun va =>
+          tr_bind (eval_tr b) (fun vb => ([], apply_binop (tok_of_binop op) va vb)))
+  | TList [TStr tg; (TList _) as c; a; b] =>
+      tr_bind (eval_tr c) (fun vc =>
+        match truth vc with
+        | Ok tc => if tc then eval_tr a else eval_tr b
+        | Err e => ([], Err e) | Panic p => ([], Panic p) | Fuel => ([], Fuel)
+        end)
+  | _ => ([], err (lit "bad tree"))
+  end.
+
+Fixpoint contains_raw (t : term) : bool :=
+  match t with
+  | TList (TStr tg :: rest) =>
+      str_eqb tg (lit "raw")
+      || (fix go (l : list term) : bool := match l with [] => false | x :: r => contains_raw x || go r end) rest
+  | _ => false
+  end.
